@@ -29,7 +29,7 @@ PLANS = {'p1': PLAN_1, 'p2': PLAN_2, 'p2q': PLAN_2Q, 'p3': PLAN_3}
 def cases(tier):
   dk_all = list(irm.INPUT_KINDS)
   for xs in ('S4', 'S43', 'R2', 'O35'):
-    for c in universe.graph_cases([(1, WOPS, 'all', 'none')], {'rp': 'p1'}):
+    for c in universe.graph_cases([(1, WOPS, 'allx', 'none')], {'rp': 'p1'}):
       c['ir']['x'] = xs
       for wk in (['rand', 'outlier', 'zero_channel'] if tier == 'quick'
                  else ['rand', 'outlier', 'zero_channel', 'pos', 'tiny', 'big',
